@@ -254,6 +254,90 @@ pub async fn h2_connect(conn: PeerConn, p: H2Params, rng: Rng) -> Result<H2Clien
     Ok(H2Client { send, driver })
 }
 
+/// A transport with one-way latency in each direction: what one side writes reaches the other
+/// `up_us` / `down_us` later, in order. Bytes are then "in flight" for a while, which is what
+/// lets a request cross a GOAWAY (or any other event) on the wire.
+pub fn with_latency<T>(io: T, up_us: u64, down_us: u64) -> tokio::io::DuplexStream
+where
+    T: tokio::io::AsyncRead + tokio::io::AsyncWrite + Unpin + Send + 'static,
+{
+    use tokio::io::{AsyncReadExt, AsyncWriteExt};
+    use tokio::sync::mpsc;
+    use tokio::time::Instant;
+    let (near, far) = tokio::io::duplex(1 << 20);
+    let (mut far_r, mut far_w) = tokio::io::split(far);
+    let (mut io_r, mut io_w) = tokio::io::split(io);
+    let (utx, mut urx) = mpsc::unbounded_channel::<(Instant, Option<Vec<u8>>)>();
+    tokio::spawn(async move {
+        loop {
+            let mut b = vec![0u8; 16 * 1024];
+            match far_r.read(&mut b).await {
+                Ok(0) | Err(_) => {
+                    let _ = utx.send((Instant::now() + Duration::from_micros(up_us), None));
+                    break;
+                }
+                Ok(n) => {
+                    b.truncate(n);
+                    if utx.send((Instant::now() + Duration::from_micros(up_us), Some(b))).is_err() {
+                        break;
+                    }
+                }
+            }
+        }
+    });
+    tokio::spawn(async move {
+        while let Some((at, d)) = urx.recv().await {
+            tokio::time::sleep_until(at).await;
+            match d {
+                Some(b) => {
+                    if io_w.write_all(&b).await.is_err() {
+                        break;
+                    }
+                }
+                None => {
+                    let _ = io_w.shutdown().await;
+                    break;
+                }
+            }
+        }
+    });
+    let (dtx, mut drx) = mpsc::unbounded_channel::<(Instant, Option<Vec<u8>>)>();
+    tokio::spawn(async move {
+        loop {
+            let mut b = vec![0u8; 16 * 1024];
+            match io_r.read(&mut b).await {
+                Ok(0) | Err(_) => {
+                    let _ = dtx.send((Instant::now() + Duration::from_micros(down_us), None));
+                    break;
+                }
+                Ok(n) => {
+                    b.truncate(n);
+                    if dtx.send((Instant::now() + Duration::from_micros(down_us), Some(b))).is_err() {
+                        break;
+                    }
+                }
+            }
+        }
+    });
+    tokio::spawn(async move {
+        while let Some((at, d)) = drx.recv().await {
+            tokio::time::sleep_until(at).await;
+            match d {
+                Some(b) => {
+                    if far_w.write_all(&b).await.is_err() {
+                        break;
+                    }
+                }
+                None => {
+                    let _ = far_w.shutdown().await;
+                    break;
+                }
+            }
+        }
+    });
+    near
+}
+
 /// The same over any transport (a TLS stream, say)
 pub async fn h2_connect_io<T>(io: T, p: H2Params) -> Result<H2Client, String>
 where
